@@ -59,7 +59,7 @@ func c17Gen(r *rand.Rand, tier string) []spec.Case {
 	sort.Strings(names)
 	n := 1
 	if tier == "thorough" {
-		n = 4
+		n = 10
 	}
 	for rep := 0; rep < n; rep++ {
 		for _, an := range names {
@@ -243,7 +243,7 @@ func init() {
 		ID: "C17", Level: "exploration", Race: true, TestName: "TestC17",
 		Gen: c17Gen, Batch: 12, Children: 12, PerCase: 3 * time.Second, Base: 90 * time.Second,
 		Judge: c17Judge,
-		Rule: "cases = client configuration (AutoMTLS x mux x SkipHostEnv x launch method x plugin-set layout x port range x socket group/TempDir x user Cmd.Env) x ambient host environment (clean, marker variables, host that is itself a plugin and carries PLUGIN_* variables, single inherited variable). The environment is captured as handed to a custom runner and as actually received by a real child process (which also reports its stdin's device/inode); e2e cases launch a real serving plugin from such a host. Class = (launch, ambient, AutoMTLS, mux, SkipHostEnv, e2e)",
+		Rule:  "cases = client configuration (AutoMTLS x mux x SkipHostEnv x launch method x plugin-set layout x port range x socket group/TempDir x user Cmd.Env) x ambient host environment (clean, marker variables, host that is itself a plugin and carries PLUGIN_* variables, single inherited variable). The environment is captured as handed to a custom runner and as actually received by a real child process (which also reports its stdin's device/inode); e2e cases launch a real serving plugin from such a host. Class = (launch, ambient, AutoMTLS, mux, SkipHostEnv, e2e)",
 		Assumptions: []string{
 			"the effective environment is computed as exec does (last duplicate wins); an empty value counts as absent because that is how the server reads these variables",
 			"only ambient variables are judged under SkipHostEnv; entries the user put into Cmd.Env are theirs",
